@@ -64,6 +64,11 @@ constexpr bool to_lower_ascii(char* input, size_t length) noexcept {
 #if ADA_SSSE3
 ada_really_inline bool has_tabs_or_newline(
     std::string_view user_input) noexcept {
+#ifdef ADA_URL_ADA_VERIF
+  if (ada_verif_buggify(108)) {
+    return true;  // conservative: caller strips (nothing)
+  }
+#endif
   // first check for short strings in which case we do it naively.
   if (user_input.size() < 16) {  // slow path
     return std::ranges::any_of(user_input, is_tabs_or_newline);
@@ -96,6 +101,11 @@ ada_really_inline bool has_tabs_or_newline(
 #elif ADA_NEON
 ada_really_inline bool has_tabs_or_newline(
     std::string_view user_input) noexcept {
+#ifdef ADA_URL_ADA_VERIF
+  if (ada_verif_buggify(108)) {
+    return true;  // conservative: caller strips (nothing)
+  }
+#endif
   // first check for short strings in which case we do it naively.
   if (user_input.size() < 16) {  // slow path
     return std::ranges::any_of(user_input, is_tabs_or_newline);
@@ -134,6 +144,11 @@ ada_really_inline bool has_tabs_or_newline(
 #elif ADA_SSE2
 ada_really_inline bool has_tabs_or_newline(
     std::string_view user_input) noexcept {
+#ifdef ADA_URL_ADA_VERIF
+  if (ada_verif_buggify(108)) {
+    return true;  // conservative: caller strips (nothing)
+  }
+#endif
   // first check for short strings in which case we do it naively.
   if (user_input.size() < 16) {  // slow path
     return std::ranges::any_of(user_input, is_tabs_or_newline);
@@ -165,6 +180,11 @@ ada_really_inline bool has_tabs_or_newline(
 #elif ADA_LSX
 ada_really_inline bool has_tabs_or_newline(
     std::string_view user_input) noexcept {
+#ifdef ADA_URL_ADA_VERIF
+  if (ada_verif_buggify(108)) {
+    return true;  // conservative: caller strips (nothing)
+  }
+#endif
   // first check for short strings in which case we do it naively.
   if (user_input.size() < 16) {  // slow path
     return std::ranges::any_of(user_input, is_tabs_or_newline);
@@ -197,6 +217,11 @@ ada_really_inline bool has_tabs_or_newline(
 #elif ADA_RVV
 ada_really_inline bool has_tabs_or_newline(
     std::string_view user_input) noexcept {
+#ifdef ADA_URL_ADA_VERIF
+  if (ada_verif_buggify(108)) {
+    return true;  // conservative: caller strips (nothing)
+  }
+#endif
   uint8_t* src = (uint8_t*)user_input.data();
   for (size_t vl, n = user_input.size(); n > 0; n -= vl, src += vl) {
     vl = __riscv_vsetvl_e8m1(n);
@@ -213,6 +238,11 @@ ada_really_inline bool has_tabs_or_newline(
 #else
 ada_really_inline bool has_tabs_or_newline(
     std::string_view user_input) noexcept {
+#ifdef ADA_URL_ADA_VERIF
+  if (ada_verif_buggify(108)) {
+    return true;  // conservative: caller strips (nothing)
+  }
+#endif
   auto has_zero_byte = [](uint64_t v) {
     return ((v - 0x0101010101010101) & ~(v) & 0x8080808080808080);
   };
